@@ -3,7 +3,6 @@
 
 use binrw::{BinReaderExt, BinResult, binread};
 use half::f16;
-use std::ffi::CString;
 use std::io::SeekFrom;
 
 pub(crate) fn read_bool_from<T: std::convert::From<u8> + std::cmp::PartialEq>(x: T) -> bool {
@@ -15,18 +14,26 @@ pub(crate) fn write_bool_as<T: std::convert::From<u8>>(x: &bool) -> T {
 }
 
 pub(crate) fn read_string(byte_stream: Vec<u8>) -> String {
-    let str = String::from_utf8(byte_stream).unwrap();
+    // damaged files may hold bytes that are not UTF-8: keep what can be decoded instead of panicking
+    let str = String::from_utf8_lossy(&byte_stream);
     str.trim_matches(char::from(0)).to_string() // trim \0 from the end of strings
 }
 
+/// The bytes of `str` as they fit into a C string: everything before the first nul.
+fn c_string_bytes(str: &str) -> &[u8] {
+    let bytes = str.as_bytes();
+    let end = bytes.iter().position(|b| *b == 0).unwrap_or(bytes.len());
+    &bytes[..end]
+}
+
 pub(crate) fn write_string(str: &String) -> Vec<u8> {
-    let c_string = CString::new(&**str).unwrap();
-    c_string.as_bytes_with_nul().to_vec()
+    let mut bytes = c_string_bytes(str).to_vec();
+    bytes.push(0);
+    bytes
 }
 
 pub(crate) fn get_string_len(str: &String) -> usize {
-    let c_string = CString::new(&**str).unwrap();
-    c_string.count_bytes() + 1 // for the nul terminator
+    c_string_bytes(str).len() + 1 // for the nul terminator
 }
 
 #[binrw::parser(reader)]
